@@ -24,3 +24,114 @@ func VerifC19Required() {
 	nd.Observe("required", req)
 	nd.Cover("parsed")
 }
+
+func vNoSep(s string, extra string) bool {
+	for i := 0; i < len(s); i++ {
+		b := s[i]
+		if b == ',' || b == '{' || b == '}' || b == '[' || b == ']' || b == '(' || b == ')' {
+			return false
+		}
+		for j := 0; j < len(extra); j++ {
+			if b == extra[j] {
+				return false
+			}
+		}
+	}
+	return true
+}
+
+func vEqStrs(a, b []string) bool {
+	if len(a) != len(b) {
+		return false
+	}
+	for i := range a {
+		if a[i] != b[i] {
+			return false
+		}
+	}
+	return true
+}
+
+func vSwapFirstCase(s string) string {
+	if len(s) == 0 {
+		return s
+	}
+	c := s[0]
+	switch {
+	case c >= 'a' && c <= 'z':
+		c -= 32
+	case c >= 'A' && c <= 'Z':
+		c += 32
+	}
+	return string([]byte{c}) + s[1:]
+}
+
+// C19 faithfulness: structured tags  v , name = a1 a2 , name2  against the stated grammar
+func VerifC19Faithful() {
+	L := nd.Param("L", 1)
+	v := nd.StringUpTo(L)
+	nd.Assume(vNoSep(v, ""))
+	bracketValue := nd.Bool()
+	if bracketValue { // a bracketed group in the value part containing the separators
+		open, close := "(", ")"
+		switch nd.Choose(3) {
+		case 1:
+			open, close = "[", "]"
+		case 2:
+			open, close = "{", "}"
+		}
+		v = v + open + "," + close
+	}
+	name := nd.StringUpTo(L)
+	nd.Assume(len(name) > 0 && vNoSep(name, "= ") && name[0] < 0x80)
+	a1, a2 := nd.StringUpTo(L), nd.StringUpTo(L)
+	nd.Assume(vNoSep(a1, " ") && vNoSep(a2, " "))
+	items := []string{a1, a2}
+	text := a1 + " " + a2
+	if nd.Bool() { // second item is a bracketed group containing both separators
+		g := "[" + a2 + " ," + "]"
+		items = []string{a1, g}
+		text = a1 + " " + g
+		nd.Cover("bracketed item")
+	}
+	name2 := nd.StringUpTo(L)
+	nd.Assume(len(name2) > 0 && vNoSep(name2, "= ") && name2[0] < 0x80)
+	nd.Assume(formatArgType(ArgType(name)) != formatArgType(ArgType(name2)))
+	tag := v + "," + name + "=" + text + "," + name2
+	args := make(TagArg)
+	got := args.Parse(tag)
+	nd.Assert(got == v, "C19: the text before the first top-level comma is the value")
+	vals, ok := args.Find(ArgType(name))
+	nd.Assert(ok, "C19: a named argument is found")
+	nd.Assert(vEqStrs(vals, items), "C19: an argument's values are its space-separated items; bracketed groups are never split")
+	vals2, ok2 := args.Find(ArgType(vSwapFirstCase(name)))
+	nd.Assert(ok2 && vEqStrs(vals2, items), "C19: an argument name is matched regardless of the case of its first letter")
+	nd.Assert(args.Has(ArgType(name2)), "C19: an argument without '=' is present")
+	nd.Assert(len(args) == 2, "C19: exactly the written arguments are present")
+	if bracketValue {
+		nd.Cover("bracketed value")
+	}
+}
+
+// C19: only an explicit required=false makes a point optional
+func VerifC19RequiredFaithful() {
+	x := nd.StringUpTo(nd.Param("X", 5))
+	nd.Assume(vNoSep(x, " ="))
+	nameIdx := nd.Choose(2)
+	name := []string{"required", "Required"}[nameIdx]
+	extra := nd.Bool()
+	tag := "v," + name + "=" + x
+	if extra {
+		tag = "v," + name + "=zz " + x
+	}
+	p := NewProperty(nil, PropertyTypeComponent, "wire", tag)
+	nd.Assert(p.IsRequired() == (x != "false"), "C19: only an explicit required=false makes a point optional")
+	if x == "false" {
+		nd.Cover("optional")
+	}
+	// a tag without a required argument, or with another argument, stays required
+	y := nd.StringUpTo(2)
+	nd.Assume(vNoSep(y, " ="))
+	q := NewProperty(nil, PropertyTypeComponent, "wire", "v,qualifier="+y)
+	nd.Assert(q.IsRequired(), "C19: a point without a required argument is required")
+}
